@@ -81,6 +81,8 @@ def build(d, old=b"", filler=0x00, uid=None):
         raw = ctrl_bytes(c)
         # find room for the whole TLV on unreserved bytes
         while any((pos + i) in reserved for i in range(len(raw))):
+            if pos not in reserved and pos < end:
+                mem[pos] = 0x00           # NULL TLV fills an unreserved gap
             pos += 1
         if pos + len(raw) > end:
             return None
